@@ -483,10 +483,11 @@ namespace hgraph
             // retarget bound an already-valid output), the delta IS the
             // current value - the target's delta storage belongs to an older
             // cycle.
-            if (is_target_position())
+            if (data_.is_target_root())
             {
                 const auto *link = data_.link_storage();
-                if (link != nullptr && link->tracking.last_modified_time > data.last_modified_time())
+                if (link != nullptr && link->tracking.last_modified_time == evaluation_time_ &&
+                    link->tracking.last_modified_time > data.last_modified_time())
                 {
                     return data.value();
                 }
@@ -524,10 +525,11 @@ namespace hgraph
         // Sampled target rebinds carry the modification on the input link,
         // not on the already-valid target. In that case the input delta is
         // the target's current value, exported by the target TSData strategy.
-        if (is_target_position())
+        if (data_.is_target_root())
         {
             const auto *link = data_.link_storage();
-            if (link != nullptr && link->tracking.last_modified_time > data.last_modified_time())
+            if (link != nullptr && link->tracking.last_modified_time == evaluation_time_ &&
+                link->tracking.last_modified_time > data.last_modified_time())
             {
                 return data.value_to_python();
             }
